@@ -115,9 +115,9 @@ Theorem metered_run_is_sem_run : forall cfg m m' afs host cap fuel fi args,
 Proof. intros. apply trun_erase. eapply inject_erase; eassumption. Qed.
 Print Assumptions metered_run_is_sem_run.
 
-(** ** meter_bounds_steps (PARTIAL: see design/C02.md): the number of executed instructions of
-    non-zero cost in any prefix is bounded by the energy ticked so far (hence by the budget). *)
-Theorem meter_bounds_costed_steps_partial : forall cfg m m' afs host cap fuel fi args T o,
+(** the number of executed instructions of non-zero cost in ANY PREFIX is bounded by the energy
+    ticked so far (hence by the budget) *)
+Theorem costed_steps_le_ticks : forall cfg m m' afs host cap fuel fi args T o,
   inject cfg m = Some m' -> ameter_funcs cfg m = Some afs ->
   trun host cap m' afs fuel fi args = (T, o) ->
   forall p q, T = p ++ q -> N.of_nat (length (works p)) <= ticks p.
@@ -126,7 +126,7 @@ Proof.
   destruct (metered_run_prepaid_exact _ _ _ _ _ _ _ _ _ _ _ Hi Ha H) as [Hp _].
   specialize (Hp p q Hpq). pose proof (works_le_work p). eapply N.le_trans; eassumption.
 Qed.
-Print Assumptions meter_bounds_costed_steps_partial.
+Print Assumptions costed_steps_le_ticks.
 
 (** non-vacuity: a concrete module with a loop, a br_if, a call and memory.grow is metered by both
     schedules and its run returns with ticks = work > 0 *)
@@ -151,3 +151,132 @@ Example metered_example :
   end.
 Proof. intros [|]; vm_compute; repeat split; reflexivity. Qed.
 Print Assumptions metered_example.
+
+(** ** meter_transparent: erasing the ticks and the [account_memory] call, the metered module behaves
+    as the source module.  If [Sem.run m] of function [fi] ends (result / trap; not stuck, not out of
+    fuel) then for all sufficiently large fuel [Sem.run (inject cfg m)] of function [fi + 1] under the
+    host [mhost h] (import 0 = account_memory returning its argument, import i+1 = import i of [m])
+    ends with the SAME outcome: same result value, same final memory, same globals, trap iff trap. *)
+From CB Require Import Wasm.MeterSim Wasm.MeterFlat Wasm.MeterBound Wasm.CostPositive.
+
+Theorem meter_transparent : forall cfg m m' h cap fuel fi args o,
+  inject cfg m = Some m' ->
+  run h cap m fuel fi args = o -> o <> OutOfFuel -> o <> Stuck ->
+  exists f0, forall f, (f0 <= f)%nat -> run (mhost h) cap m' f (S fi) args = o.
+Proof. exact meter_transparent_sem. Qed.
+Print Assumptions meter_transparent.
+
+(** ... and the work that [meter_prepaid_exact] sums on the metered trace IS the cost schedule summed
+    over the instructions the SOURCE run executes: the source module annotated with its own costs
+    ([annot_funcs]: [get_cost] of every instruction in its context, [branch] on a taken br_if,
+    [invoke_after] per entered function; [annot_is_source]) produces the same sequence of non-zero
+    work items, the same total, and the same host calls with the same arguments in the same order
+    (the metered trace's calls of import 0 removed, the others re-indexed). *)
+Theorem metered_work_is_source_work : forall cfg m m' afs_s afs_m h cap fuel fi args W o,
+  inject cfg m = Some m' -> annot_funcs cfg m = Some afs_s -> ameter_funcs cfg m = Some afs_m ->
+  trun h cap m afs_s fuel fi args = (W, o) -> o <> OutOfFuel -> o <> Stuck ->
+  exists f0 T, (forall f, (f0 <= f)%nat -> trun (mhost h) cap m' afs_m f (S fi) args = (T, o)) /\
+               works T = works W /\ work T = work W /\ src_hostcalls T = hostcalls W.
+Proof. exact MeterSim.metered_work_is_source_work. Qed.
+Print Assumptions metered_work_is_source_work.
+
+Theorem annot_is_source : forall cfg m afs_s,
+  annot_funcs cfg m = Some afs_s -> m_funcs m = map erase_func afs_s.
+Proof. exact annot_funcs_erase. Qed.
+Print Assumptions annot_is_source.
+
+(** hence: energy ticked by the metered run = cost schedule summed over the source run *)
+Theorem meter_exact_wrt_source : forall cfg m m' afs_s afs_m h cap fuel fi args W r mem g,
+  inject cfg m = Some m' -> annot_funcs cfg m = Some afs_s -> ameter_funcs cfg m = Some afs_m ->
+  trun h cap m afs_s fuel fi args = (W, Done r mem g) ->
+  exists f0 T, (forall f, (f0 <= f)%nat -> trun (mhost h) cap m' afs_m f (S fi) args = (T, Done r mem g)) /\
+               ticks T = work W.
+Proof.
+  intros cfg m m' afs_s afs_m h cap fuel fi args W r mem g Hi Hs Hm H.
+  assert (N1 : Done r mem g <> OutOfFuel) by discriminate. assert (N2 : Done r mem g <> Stuck) by discriminate.
+  destruct (MeterSim.metered_work_is_source_work _ _ _ _ _ _ _ _ _ _ _ _ Hi Hs Hm H N1 N2)
+    as [f0 [T [HT [_ [Hw _]]]]].
+  exists f0, T. split; [exact HT|].
+  destruct (metered_run_prepaid_exact _ _ _ _ _ _ _ _ _ _ _ Hi Hm (HT f0 (le_n _))) as [_ He].
+  rewrite (He r mem g eq_refl). exact Hw.
+Qed.
+Print Assumptions meter_exact_wrt_source.
+
+(** ** flat_structured_agree: the transcription of [InstrSeqTransformer::run] on the opcode stream of
+    every well-nested body equals the flattening of the structured transformer's output (both schedules
+    price [End]/[Else] at 0). *)
+Theorem flat_structured_agree : forall cfg m m',
+  (forall L, c_cost cfg OEnd L (ctx_of_module m) = Some 0) ->
+  (forall L, c_cost cfg OElse L (ctx_of_module m) = Some 0) ->
+  inject cfg m = Some m' ->
+  inject_flat cfg m (map (fun f => flatten_body (f_body f)) (m_funcs m)) =
+  Some (map (fun f => flatten_body (f_body f)) (m_funcs m')).
+Proof. exact MeterFlat.flat_structured_agree. Qed.
+Print Assumptions flat_structured_agree.
+
+Theorem flat_structured_agree_v0_v1 : forall m m',
+  (inject CostV0.cfg m = Some m' ->
+   inject_flat CostV0.cfg m (map (fun f => flatten_body (f_body f)) (m_funcs m)) =
+   Some (map (fun f => flatten_body (f_body f)) (m_funcs m'))) /\
+  (inject CostV1.cfg m = Some m' ->
+   inject_flat CostV1.cfg m (map (fun f => flatten_body (f_body f)) (m_funcs m)) =
+   Some (map (fun f => flatten_body (f_body f)) (m_funcs m'))).
+Proof.
+  intros m m'. split; apply MeterFlat.flat_structured_agree; intro L;
+    first [apply (v0_end_else L (ctx_of_module m)) | apply (v1_end_else L (ctx_of_module m))].
+Qed.
+Print Assumptions flat_structured_agree_v0_v1.
+
+(** ** meter_bounds_steps and metered_run_terminates_within.
+    [M = module_bound afs] = 2 + the size of the largest metered function body.  For every run of a
+    metered module (any fuel, any outcome - also a run cut off by lack of fuel, i.e. every fuel-cut
+    prefix): the number of events (every executed source instruction emits one) is at most
+    M (1 + 2 ticks).  And a run that was cut off by lack of fuel had fuel <= M (1 + 2 ticks): so under
+    an energy budget B, fuel M (1 + 2B) + 1 suffices - the run ends (success or trap) or has ticked more
+    than B, i.e. has been stopped by out-of-energy, within M (1 + 2B) events. *)
+Theorem meter_bounds_steps : forall cfg m m' afs host cap fuel fi args T o,
+  positive_cfg cfg (ctx_of_module m) ->
+  inject cfg m = Some m' -> ameter_funcs cfg m = Some afs ->
+  trun host cap m' afs fuel fi args = (T, o) ->
+  evs T <= module_bound afs * (1 + 2 * ticks T).
+Proof.
+  intros cfg m m' afs host cap fuel fi args T o Hp Hi Hm H.
+  destruct (metered_run_bounds cfg m m' afs host cap fuel fi args T o Hp Hi Hm H) as [HA _]. exact HA.
+Qed.
+Print Assumptions meter_bounds_steps.
+
+Theorem metered_run_terminates_within : forall cfg m m' afs host cap fuel fi args T B,
+  positive_cfg cfg (ctx_of_module m) ->
+  inject cfg m = Some m' -> ameter_funcs cfg m = Some afs ->
+  module_bound afs * (1 + 2 * B) < N.of_nat fuel ->
+  trun host cap m' afs fuel fi args = (T, OutOfFuel) -> B < ticks T.
+Proof.
+  intros cfg m m' afs host cap fuel fi args T B Hp Hi Hm Hf H.
+  destruct (metered_run_bounds cfg m m' afs host cap fuel fi args T OutOfFuel Hp Hi Hm H) as [_ HF].
+  specialize (HF eq_refl). pose proof (module_bound_ge1 afs).
+  destruct (N.lt_ge_cases B (ticks T)) as [Hlt|Hge]; [exact Hlt|]. exfalso.
+  assert (module_bound afs * (1 + 2 * ticks T) <= module_bound afs * (1 + 2 * B)) by (apply N.mul_le_mono_l; lia).
+  lia.
+Qed.
+Print Assumptions metered_run_terminates_within.
+
+(** both generated schedules satisfy the positivity hypothesis *)
+Theorem generated_schedules_positive : forall cx, positive_cfg CostV0.cfg cx /\ positive_cfg CostV1.cfg cx.
+Proof. intro cx. exact (conj (positive_v0 cx) (positive_v1 cx)). Qed.
+Print Assumptions generated_schedules_positive.
+
+(** non-vacuity: an endless loop and an endless recursion are metered, and with fuel 2000 their runs
+    are cut off by fuel only after more than 100 energy has been ticked *)
+Definition spin_module : module :=
+  {| m_types := [ {| ft_params := []; ft_result := None |} ];
+     m_imports := [];
+     m_funcs := [ {| f_type := 0%nat; f_locals := []; f_body := [Loop None [Basic (BBr 0)]] |};
+                  {| f_type := 0%nat; f_locals := []; f_body := [Basic (BCall 1)] |} ];
+     m_table := None; m_elems := []; m_mem := None; m_data := []; m_globals := [] |}.
+Example spin_example : forall v1 : bool,
+  match model_events v1 512 spin_module 2000 0 [], model_events v1 512 spin_module 2000 1 [] with
+  | Some (T1, OutOfFuel), Some (T2, OutOfFuel) => 100 < ticks T1 /\ 100 < ticks T2
+  | _, _ => False
+  end.
+Proof. intros [|]; vm_compute; split; reflexivity. Qed.
+Print Assumptions spin_example.
